@@ -1,7 +1,306 @@
 //! Generators for the non-filter families (sources, sinks, pipes, presets, Hampel, ownership).
-use crate::gen::{Case, Tier};
+use crate::gen::{rat, Case, Tier};
 use crate::prng::Rng;
 
-pub fn generate(prop: &str, _rng: &mut Rng, _tier: &Tier) -> Vec<Case> {
-    panic!("harness: no generator for property {}", prop)
+fn small(rng: &mut Rng) -> String {
+    rng.range(-9, 9).to_string()
+}
+
+fn leaf_src(rng: &mut Rng) -> String {
+    match rng.below(10) {
+        0 => "iter[]".to_string(),
+        1 => format!("iter[{}]", small(rng)),
+        2 => format!("const({})", small(rng)),
+        3 => format!("incr({},{})", small(rng), small(rng)),
+        4 => format!("repeat({},{})", small(rng), rng.range(0, 3)),
+        _ => {
+            let n = rng.range(2, 5);
+            let v: Vec<String> = (0..n).map(|_| small(rng)).collect();
+            format!("iter[{}]", v.join(","))
+        }
+    }
+}
+
+fn count(rng: &mut Rng) -> i64 {
+    *rng.pick(&[0, 0, 1, 1, 2, 3, 4, 6])
+}
+
+/// random adapter tree; `clonable` = may sit under `cycle` (no `rt` inside)
+fn src_expr(rng: &mut Rng, depth: usize, clonable: bool) -> String {
+    if depth == 0 || rng.chance(1, 5) {
+        return leaf_src(rng);
+    }
+    match rng.below(9) {
+        0 => format!("take({},{})", count(rng), src_expr(rng, depth - 1, clonable)),
+        1 => format!("skip({},{})", count(rng), src_expr(rng, depth - 1, clonable)),
+        2 => format!("chain({},{})", src_expr(rng, depth - 1, clonable), src_expr(rng, depth - 1, clonable)),
+        3 => format!("cycle({})", src_expr(rng, depth - 1, true)),
+        4 => format!("padc({},{},{})", small(rng), count(rng), src_expr(rng, depth - 1, clonable)),
+        5 | 6 => format!("pade({},{})", count(rng), src_expr(rng, depth - 1, clonable)),
+        7 => format!("cache({})", src_expr(rng, depth - 1, clonable)),
+        _ => {
+            if clonable {
+                format!("take({},{})", count(rng), src_expr(rng, depth - 1, clonable))
+            } else {
+                format!("rt({})", src_expr(rng, depth - 1, false))
+            }
+        }
+    }
+}
+
+fn pulls_case(expr: &str, n: usize) -> Case {
+    let mut c = vec![format!("new 1 src {}", expr)];
+    for _ in 0..n {
+        c.push("pull 1".into());
+    }
+    c
+}
+
+/// C10
+pub fn gen_sources(rng: &mut Rng, tier: &Tier) -> Vec<Case> {
+    let mut cases = Vec::new();
+    // enumerated: every unary adapter over the empty / one-element / three-element source, counts 0..3
+    let leaves = ["iter[]", "iter[7]", "iter[1,2,3]", "incr(5,2)"];
+    for l in leaves {
+        cases.push(pulls_case(l, 6));
+        cases.push(pulls_case(&format!("cycle({})", l), 9));
+        cases.push(pulls_case(&format!("cache({})", l), 6));
+        cases.push(pulls_case(&format!("rt({})", l), 6));
+        for n in 0..=3 {
+            for ad in ["take", "skip", "pade"] {
+                cases.push(pulls_case(&format!("{}({},{})", ad, n, l), 12));
+            }
+            cases.push(pulls_case(&format!("padc(9,{},{})", n, l), 12));
+            cases.push(pulls_case(&format!("repeat(4,{})", n), 6));
+            // depth 2
+            for ad2 in ["take", "skip", "pade"] {
+                for m in [0, 1, 2] {
+                    cases.push(pulls_case(&format!("{}({},pade({},{}))", ad2, m, n, l), 14));
+                    cases.push(pulls_case(&format!("pade({},{}({},{}))", n, ad2, m, l), 14));
+                }
+            }
+        }
+        for l2 in leaves {
+            cases.push(pulls_case(&format!("chain({},{})", l, l2), 10));
+        }
+    }
+    // random trees of depth <= 3
+    for _ in 0..tier.n(600, 8000) {
+        let e = src_expr(rng, 3, false);
+        cases.push(pulls_case(&e, rng.range(4, 16) as usize));
+    }
+    // Peek: random interleavings of peek and pull
+    for _ in 0..tier.n(200, 2000) {
+        let e = src_expr(rng, 2, false);
+        let mut c = vec![format!("new 1 peek {}", e)];
+        for _ in 0..rng.range(3, 14) {
+            c.push(if rng.chance(1, 2) { "peek 1".to_string() } else { "pull 1".to_string() });
+        }
+        cases.push(c);
+    }
+    // Cache on top: cached() after every pull
+    for _ in 0..tier.n(200, 2000) {
+        let e = src_expr(rng, 2, false);
+        let mut c = vec![format!("new 1 scache {}", e), "cached 1".to_string()];
+        for _ in 0..rng.range(2, 10) {
+            c.push("pull 1".into());
+            c.push("cached 1".into());
+        }
+        cases.push(c);
+    }
+    cases
+}
+
+pub const SINKS: [&str; 9] = [
+    "sink_min", "sink_max", "sink_bounds", "sink_last", "sink_integrate", "sink_mean", "sink_meanvar",
+    "sink_stats", "sink_collect",
+];
+
+/// C11
+pub fn gen_sinks(rng: &mut Rng, tier: &Tier) -> Vec<Case> {
+    let mut cases = Vec::new();
+    for kind in SINKS {
+        // empty and one sample
+        cases.push(vec![format!("new 1 {}", kind), "fin 1".to_string()]);
+        for _ in 0..tier.n(60, 800) {
+            let len = rng.range(1, 9) as usize;
+            let vals = crate::gen::rat_seq(rng, len);
+            let as_filter = kind != "sink_last" && rng.chance(1, 2);
+            let mut c = vec![format!("new 1 {}", kind), "fin 1".to_string()];
+            for v in vals {
+                c.push(if as_filter { format!("ff 1 {}", v) } else { format!("sink 1 {}", v) });
+                c.push("fin 1".into());
+            }
+            cases.push(c);
+        }
+    }
+    cases
+}
+
+// ---- pipes ---------------------------------------------------------------------------------------
+
+fn pipe_leaf(rng: &mut Rng) -> String {
+    match rng.below(9) {
+        0 => "integrate".to_string(),
+        1 => "differentiate".to_string(),
+        2 => format!("delay;N={}", rng.range(0, 3)),
+        3 => format!("median;N={}", rng.range(1, 4)),
+        4 => format!("max;N={}", rng.range(1, 3)),
+        5 => format!("min;N={}", rng.range(1, 3)),
+        6 => format!("mean;N={}", rng.range(1, 3)),
+        7 => format!("ema;w={}", crate::gen::unit_rat(rng)),
+        _ => {
+            let n = rng.range(1, 3);
+            let c: Vec<String> = (0..n).map(|_| rng.range(-2, 2).to_string()).collect();
+            format!("convolve;c={}", c.join(","))
+        }
+    }
+}
+
+/// all binary trees over the leaf sequence `items` (in order)
+fn all_trees(items: &[String]) -> Vec<String> {
+    if items.len() == 1 {
+        return vec![items[0].clone()];
+    }
+    let mut out = Vec::new();
+    for split in 1..items.len() {
+        for l in all_trees(&items[..split]) {
+            for r in all_trees(&items[split..]) {
+                out.push(format!("P({},{})", l, r));
+            }
+        }
+    }
+    out
+}
+
+/// randomly wrap subtrees in `U(…)` and turn `P(` into `O(` where the left operand is a pipe or unit pipe
+fn decorate(rng: &mut Rng, shape: &str) -> String {
+    // work on the parsed structure by a tiny recursive rewrite over the string
+    fn go(rng: &mut Rng, s: &str) -> String {
+        if s.starts_with("P(") {
+            // split top-level args
+            let inner = &s[2..s.len() - 1];
+            let mut depth = 0;
+            let mut cut = 0;
+            for (i, ch) in inner.char_indices() {
+                match ch {
+                    '(' => depth += 1,
+                    ')' => depth -= 1,
+                    ',' if depth == 0 => {
+                        cut = i;
+                        break;
+                    }
+                    _ => {}
+                }
+            }
+            let mut l = go(rng, &inner[..cut]);
+            let r = go(rng, &inner[cut + 1..]);
+            let mut op = "P";
+            if rng.chance(1, 3) {
+                if !(l.starts_with("P(") || l.starts_with("U(") || l.starts_with("O(")) {
+                    l = format!("U({})", l);
+                }
+                // `O` needs a Pipe (built by P, not O) or a UnitPipe on the left
+                if l.starts_with("P(") || l.starts_with("U(") {
+                    op = "O";
+                }
+            }
+            let res = format!("{}({},{})", op, l, r);
+            if rng.chance(1, 6) { format!("U({})", res) } else { res }
+        } else if rng.chance(1, 6) {
+            format!("U({})", s)
+        } else {
+            s.to_string()
+        }
+    }
+    go(rng, shape)
+}
+
+/// C01
+pub fn gen_pipes(rng: &mut Rng, tier: &Tier) -> Vec<Case> {
+    let mut cases = Vec::new();
+    let reps = tier.n(4, 30);
+    for k in 1..=6usize {
+        let items: Vec<String> = (0..k).map(|i| format!("L{}", i)).collect();
+        let trees = if k == 1 { vec!["U(L0)".to_string()] } else { all_trees(&items) };
+        for t in &trees {
+            for _ in 0..reps {
+                let shape = decorate(rng, t);
+                let leaves: Vec<String> = (0..k).map(|_| pipe_leaf(rng)).collect();
+                let mut c = vec![format!("new 1 pipe shape={} leaves={}", shape, leaves.join("|"))];
+                for _ in 0..rng.range(2, 9) {
+                    c.push(format!("pf 1 {}", rng.range(-5, 5)));
+                    if rng.chance(1, 3) {
+                        c.push("plog 1".into());
+                    }
+                }
+                c.push("plog 1".into());
+                cases.push(c);
+            }
+        }
+        // a source as first stage
+        let items_s: Vec<String> = std::iter::once("S".to_string()).chain((0..k).map(|i| format!("L{}", i))).collect();
+        let mut trees_s = all_trees(&items_s);
+        // the source must be the left-most leaf of left operands only: keep all (S is always first)
+        if trees_s.len() > 30 {
+            let mut pick = Vec::new();
+            for _ in 0..30 {
+                pick.push(trees_s[rng.below(trees_s.len() as u64) as usize].clone());
+            }
+            trees_s = pick;
+        }
+        for t in &trees_s {
+            let shape = decorate(rng, t);
+            let leaves: Vec<String> = (0..k).map(|_| pipe_leaf(rng)).collect();
+            let n = rng.range(0, 5);
+            let src = if rng.chance(1, 4) {
+                format!("take({},incr({},{}))", n, rng.range(-3, 3), rng.range(-2, 2))
+            } else {
+                let v: Vec<String> = (0..n).map(|_| rng.range(-5, 5).to_string()).collect();
+                format!("iter[{}]", v.join(","))
+            };
+            let mut c = vec![format!("new 1 pipe shape={} leaves={} source={}", shape, leaves.join("|"), src)];
+            for _ in 0..(n + 3) {
+                c.push("ppull 1".into());
+            }
+            c.push("plog 1".into());
+            cases.push(c);
+        }
+        // a sink as last stage
+        let items_k: Vec<String> = (0..k).map(|i| format!("L{}", i)).chain(std::iter::once("K".to_string())).collect();
+        let mut trees_k = all_trees(&items_k);
+        if trees_k.len() > 30 {
+            let mut pick = Vec::new();
+            for _ in 0..30 {
+                pick.push(trees_k[rng.below(trees_k.len() as u64) as usize].clone());
+            }
+            trees_k = pick;
+        }
+        for t in &trees_k {
+            let shape = decorate(rng, t);
+            let leaves: Vec<String> = (0..k).map(|_| pipe_leaf(rng)).collect();
+            let sink = *rng.pick(&["sink_collect", "sink_collect", "sink_mean", "sink_last", "sink_max", "sink_integrate", "sink_stats"]);
+            let mut c = vec![format!("new 1 pipe shape={} leaves={} sink={}", shape, leaves.join("|"), sink), "pfin 1".to_string()];
+            for _ in 0..rng.range(1, 7) {
+                c.push(format!("psink 1 {}", rng.range(-5, 5)));
+                if rng.chance(1, 3) {
+                    c.push("pfin 1".into());
+                }
+            }
+            c.push("pfin 1".into());
+            c.push("plog 1".into());
+            cases.push(c);
+        }
+    }
+    let _ = rat(rng);
+    cases
+}
+
+pub fn generate(prop: &str, rng: &mut Rng, tier: &Tier) -> Vec<Case> {
+    match prop {
+        "C01" => gen_pipes(rng, tier),
+        "C10" => gen_sources(rng, tier),
+        "C11" => gen_sinks(rng, tier),
+        p => crate::gen3::generate(p, rng, tier),
+    }
 }
